@@ -232,7 +232,9 @@ class Receiver:
                 },
             )
             dep_ctx = dependency_graph.async_ctx(
-                broker_ctx,
+                # The broker's dict is shared by all concurrent executions,
+                # so every execution resolves with its own copy.
+                broker_ctx.copy(),
                 self.broker.dependency_overrides or None,
             )
             # Resolve all function's dependencies.
